@@ -192,6 +192,43 @@ def check_sized_usage_widths(fx, rep):
 
 
 
+def check_transparent_constructors(fx, rep, rule):
+    """merge states its results through the expression constructors (`TE::word(width, usage)`, `mapping`, `dyn_array`, ..): the
+    laws read off merge's arms hold for the VALUES only if a constructor stores exactly what it is handed. A constructor that
+    completes or adjusts its arguments (an unknown width filled in from the usage) invents evidence that later conflicts or not
+    depending on what was met first."""
+    n = 0
+    for b in fx.fn_bodies():
+        if b.get("impl_self") != TE or not b.get("hir") or b.get("from_expansion"):
+            continue
+        fn = fx.fns.get(b["def"], {})
+        if (fn.get("output") or "").replace(" ", "") not in (TE, "Self"):
+            continue
+        params = [p_ for p_ in b["hir"]["params"] if p_.get("p") == "Bind"]
+        if len(params) != len(b["hir"]["params"]) or not params:
+            continue
+        root = b["hir"]["value"]
+        t = T.term(root, T.Env(), T.mutated_locals(root))
+        # only plain field-for-parameter constructors are in scope (their result is one struct literal)
+        if not (isinstance(t, tuple) and t[0] == "struct" and str(t[1]) == TE):
+            lits = [x for x, _ in F.walk(root) if x.get("k") == "Struct" and x.get("adt") == TE]
+            takes_fields = len(lits) == 1 and len(lits[0]["fields"]) == len(params) and {f["field"] for f in lits[0]["fields"]} == {p_["name"] for p_ in params}
+            if not takes_fields:
+                continue
+            n += 1
+            rep.oblige(False, rule, f"transparent-ctor:{b['name']}", F.loc(b["span"]), f"`{b['def']}` does not store its arguments as they stand (its result is `{T.short(t)[:80]}`): evidence built through it differs from what merge's arms state")
+            continue
+        fields = dict((f, v) for f, v in t[3])
+        names = {p_["local"]: p_["name"] for p_ in params}
+        if set(fields) != set(names.values()):
+            continue
+        n += 1
+        rep.fn(b["def"])
+        bad = [f for f, v in fields.items() if not (isinstance(v, tuple) and v[0] == "local" and names.get(v[1]) == f)]
+        rep.oblige(not bad, rule, f"transparent-ctor:{b['name']}", F.loc(b["span"]), f"`{b['def']}` does not store {bad} as handed (`{T.short(t)[:80]}`): evidence built through this constructor differs from what merge's arms state, and what it adds conflicts or not depending on what was met first", sample={"rule": rule, "ctor": b["name"], "fields": sorted(fields)} if n <= 3 else None)
+    rep.floor(rule, n, 3, "field-for-parameter constructors of the type expression")
+
+
 def check_usage_oracle(rep, usages, table):
     from .. import tables as TB
 
@@ -341,6 +378,7 @@ def check(fx, rep, tier):
         check_usage_oracle(rep, usages, table)
     check_width_table(mm, rep)
     check_sized_usage_widths(fx, rep)
+    check_transparent_constructors(fx, rep, "R15.2")
     # a sized word pushed down to a span whose size it does not have is a contradiction accepted silently (shared with C12)
     from .c12 import check_span_judgement_width
 
